@@ -247,7 +247,7 @@ def run(ck):
     # ------------------------------------------------------------------ arrays map pointwise, index preserved
     arr = np.array([0.0, 1.5, 3.25, 1e6])
     ser = pd.Series(arr, index=[7, 3, 5, 11])
-    for (mf, uf), (mt, ut) in rng.sample(list(itertools.product(PRESS, PRESS)), 40 if thorough else 12):
+    for (mf, uf), (mt, ut) in rng.sample(list(itertools.product(PRESS, PRESS)), ck.n(12, 40)):
         a1 = c_pressure(arr, mf, mt, uf, ut, stub, 77.0)
         s1 = c_pressure(ser, mf, mt, uf, ut, stub, 77.0)
         z1 = c_pressure(np.float64(1.5), mf, mt, uf, ut, stub, 77.0)
@@ -257,7 +257,7 @@ def run(ck):
         ck.count(("arr", "P", mf, uf, mt, ut), bucket="array")
         if not okk:
             ck.fail_case({"fn": "P-array", "case": [mf, uf, mt, ut]}, {"array": str(a1), "series": str(s1)})
-    for (bf, uf), (bt, ut) in rng.sample(list(itertools.product(LOAD, LOAD)), 60 if thorough else 16):
+    for (bf, uf), (bt, ut) in rng.sample(list(itertools.product(LOAD, LOAD)), ck.n(16, 60)):
         a1 = c_loading(arr, bf, bt, uf, ut, stub, 77.0, "mass", "g")
         s1 = c_loading(ser, bf, bt, uf, ut, stub, 77.0, "mass", "g")
         exp = [frac(x) * cx.scale_l(bf, uf, "mass", "g") / cx.scale_l(bt, ut, "mass", "g") for x in arr]
